@@ -397,7 +397,10 @@ class C09(Property):
         ]
         return old + new + late
 
-    SEGS_ODD = ["ab", ":", "a:b", "...", ":xy", "é", "日本", "a b", "%2F", "*", "~", "A", ":X", "x" * 300]
+    # names as inputs: segments and parameter names some layer might special-case
+    SEGS_ODD = ["ab", ":", "a:b", "...", ":xy", "é", "日本", "a b", "%2F", "*", "~", "A", ":X", "x" * 300,
+                ":id", ":ID", ":a-b", ":a.b", ":*", "::", "%3A", "%3Ax", "%2e%2e", "..a", "a..", ".a", " ", "+", "a+b", ";", "a;b=c",
+                "@", "$", "&", "=", "a=b", "index.html", "favicon.ico", "*.js", "{id}", "<id>", "?", "#", "%", "%zz", "\\", "null", "0"]
 
     def _pattern(self, rng, names, wfbias):
         depth = rng.choice([0, 1, 1, 2, 2, 2, 3, 3, 4])
@@ -553,6 +556,7 @@ class C09(Property):
             for _ in range(rng.randint(4, 14)):
                 reqs.append(self._request(rng, regs, METHODS if rng.random() < 0.7 else ms))
             self._batches(rng, reqs)
+            self._decorate(rng, reqs, len(regs))
             c = rng.random()
             cases.append({"nf": c < 0.1, "na": 0.05 < c < 0.15, "regs": regs, "reqs": reqs})
         nserver = max(1, n // 3)
@@ -561,6 +565,40 @@ class C09(Property):
         if tier == "thorough":
             cases += self._exhaustive()
         return cases
+
+    def _decorate(self, rng, reqs, nregs=None):
+        """more tokens on the flag (last element) of requests: a parked handler parks BEFORE its first read ("pre");
+        the handler answers itself (do=201/404/405/500/panic); the handler writes into the vars map it got (scrib);
+        router kind: the request is served after only k of the Handle calls (after=k), k non-decreasing"""
+        bad = 0
+        for rq in reqs:
+            toks = [t for t in rq[-1].split("+") if t]
+            parked = any(t == "hold" or t.startswith("c") for t in toks)
+            if parked and rng.random() < 0.4:
+                toks.append("pre")
+            if not parked and rng.random() < 0.05:
+                toks.append("scrib")
+            if not any(t == "hold" for t in toks) and rng.random() < 0.07:
+                do = rng.choice(["201", "404", "405", "500", "panic"])
+                if do in ("500", "panic"):
+                    bad += 1
+                if bad <= 2 or do not in ("500", "panic"):
+                    toks.append("do=" + do)
+            rq[-1] = "+".join(toks)
+        if nregs is not None and nregs > 0 and rng.random() < 0.35:
+            # groups = single requests or whole concurrent batches
+            groups, prev = [], None
+            for rq in reqs:
+                c = next((t for t in rq[-1].split("+") if t.startswith("c")), None)
+                if c is not None and c == prev:
+                    groups[-1].append(rq)
+                else:
+                    groups.append([rq])
+                prev = c
+            ks = sorted(rng.choice([rng.randint(0, nregs), nregs]) for _ in groups)
+            for g, k in zip(groups, ks):
+                for rq in g:
+                    rq[-1] = "+".join([t for t in rq[-1].split("+") if t] + ["after=%d" % k])
 
     def _batches(self, rng, reqs):
         """mark runs of consecutive requests as concurrent batches (flag c<n> = last element)"""
@@ -604,7 +642,7 @@ class C09(Property):
             servers.append({"cors": c < 0.15, "nf": 0.15 < c < 0.35 and rng.random() < 0.6, "na": 0.15 < c < 0.35 and rng.random() < 0.6,
                             "use": rng.random() < 0.3, "chain": rng.random() < 0.15, "native": rng.random() < 0.25,
                             "must": rng.random() < 0.2, "ownrouter": rng.random() < 0.12, "corskind": rng.randrange(3),
-                            "files": rng.random() < 0.12, "extras": rng.random() < 0.12})
+                            "files": rng.random() < 0.12, "extras": rng.random() < 0.12, "scribble": rng.random() < 0.2})
         nmount = rng.randint(1, 5)
         mounts = []
         used = {}
@@ -639,6 +677,8 @@ class C09(Property):
         for s in range(nsrv):
             last = max([i for i, e in enumerate(events) if e["ev"] == "mount" and e["server"] == s], default=-1)
             pos = len(events) if rng.random() < 0.6 else rng.randint(last + 1, len(events))
+            if last > 0 and rng.random() < 0.06:
+                pos = rng.randint(1, last)      # Start before the last mount(s): those are never bound
             events.insert(pos, {"ev": "start", "server": s})
         case = {"kind": "server", "regs": [], "tables": tables, "servers": servers, "events": events}
         # requests: derived from the routes of the addressed server, of the other servers, from the tables as written,
@@ -671,6 +711,7 @@ class C09(Property):
                     held.append([str(s), m, "/" + "/".join(segs), "path", "hold"])
         self._batches(rng, reqs)
         case["reqs"] = held + reqs
+        self._decorate(rng, case["reqs"])
         return case
 
     def _exhaustive(self):
@@ -773,7 +814,12 @@ class C09(Property):
         regs = clist(["mkReg %s %s %s" % (cstr(m), cstr(p), cz(i)) for i, (m, p) in enumerate(case["regs"])])
         regobs = clist([REGERR.get(e, "RegOther") for e in obs["regerr"]])
         pclean = clist([cstr(s) for s in obs["pclean"]])
-        reqs = clist(["mkReq %s %s %s %s %s" % (cstr(rq[0]), cstr(r["path"]), cstr(r["clean"]), self._resp(r), self._late(r))
+        def after(rq):
+            for t in (rq[3] if len(rq) > 3 else "").split("+"):
+                if t.startswith("after="):
+                    return int(t[6:])
+            return len(case["regs"])
+        reqs = clist(["mkReq %s %s %s %s %s %d" % (cstr(rq[0]), cstr(r["path"]), cstr(r["clean"]), self._resp(r), self._late(r), after(rq))
                       for rq, r in zip(case["reqs"], obs["res"]) if r["k"] != "badreq"])
         return "CRouter (mkCase %s %s %s %s %s %s)" % (cbool(case["nf"]), cbool(case["na"]), regs, regobs, pclean, reqs)
 
@@ -807,7 +853,7 @@ class C09(Property):
         if case.get("kind") == "server":
             fs += ["start_" + ("never" if s == -1 else REGERR.get(s, "RegOther")) for s in sorted(set(obs["starts"]))]
             for c in case["servers"]:
-                fs += ["srv_" + k for k in ("cors", "use", "nf", "na", "chain", "native", "must", "ownrouter", "files", "extras") if c.get(k)]
+                fs += ["srv_" + k for k in ("cors", "use", "nf", "na", "chain", "native", "must", "ownrouter", "files", "extras", "scribble") if c.get(k)]
                 if c["cors"]:
                     fs.append("corskind=%d" % c.get("corskind", 0))
             mounts = [e for e in case["events"] if e["ev"] == "mount"]
@@ -830,6 +876,11 @@ class C09(Property):
             ix = [i for i, e in enumerate(case["events"]) if e["ev"] == "start"]
             if ix and any(e["ev"] == "mount" for e in case["events"][ix[0]:]):
                 fs.append("start_before_other_mounts")
+            for i in ix:
+                sv = case["events"][i]["server"]
+                if any(e["ev"] == "mount" and e["server"] == sv for e in case["events"][i:]):
+                    fs.append("mount_after_own_start")
+                    break
         fs += ["reg_" + REGERR.get(e, "RegOther") for e in sorted(set(obs["regerr"]))]
         fs += ["resp_" + k for k in sorted(set(r["k"] for r in obs["res"]))]
         if any(r["k"] not in ("down", "badreq") and r["clean"] != r["path"] for r in obs["res"]):
@@ -842,10 +893,11 @@ class C09(Property):
             fs.append("non_ascii_path")
         if any(len(r["vars"]) >= 2 for r in obs["res"]):
             fs.append("vars>=2")
+        nflag = 4 if case.get("kind") == "server" else 3
+        toks = set(t.split("=")[0] if not t.startswith("do=") else t for rq in case["reqs"] if len(rq) > nflag for t in rq[nflag].split("+") if t)
+        fs += ["flag_" + ("c" if t.startswith("c") and t[1:].isdigit() else t) for t in sorted(toks)]
         if any(r.get("held") for r in obs["res"]):
             fs.append("handler_outlives_timeout")
-        if any(rq[-1].startswith("c") for rq in case["reqs"] if len(rq) > 3 and isinstance(rq[-1], str) and rq[-1] not in ("path", "raw")):
-            fs.append("concurrent_batch")
         if any(len(r.get("late") or []) >= 1 and r["vars"] for r in obs["res"]):
             fs.append("late_reads_of_vars")
         if any(r["k"] == "na" and len(r["allow"]) >= 2 for r in obs["res"]):
@@ -862,8 +914,10 @@ class C09(Property):
             for i in range(len(reqs)):
                 res.append(dict(case, reqs=[reqs[i]]))
         for i, rq in enumerate(reqs):
-            if len(rq) > 4 and rq[4].startswith("c"):
-                res.append(dict(case, reqs=reqs[:i] + [rq[:4] + [""]] + reqs[i + 1:]))
+            if len(rq) > 4 and rq[4]:
+                toks = rq[4].split("+")
+                for j in range(len(toks)):
+                    res.append(dict(case, reqs=reqs[:i] + [rq[:4] + ["+".join(toks[:j] + toks[j + 1:])]] + reqs[i + 1:]))
         for i, e in enumerate(events):
             if e["ev"] != "mount":
                 continue
@@ -891,7 +945,7 @@ class C09(Property):
                     ne.append(e)
                 res.append(dict(case, tables=nt, events=ne))
         for s, c in enumerate(case["servers"]):
-            for k in ("use", "nf", "na", "chain", "native", "must", "ownrouter", "files", "extras"):
+            for k in ("use", "nf", "na", "chain", "native", "must", "ownrouter", "files", "extras", "scribble"):
                 if c.get(k):
                     res.append(dict(case, servers=case["servers"][:s] + [dict(c, **{k: False})] + case["servers"][s + 1:]))
         # move every Start to the end
@@ -911,8 +965,17 @@ class C09(Property):
         if len(reqs) > 2:
             for i in range(len(reqs)):
                 res.append(dict(case, reqs=[reqs[i]]))
+        def shift(rq, i):
+            if len(rq) <= 3:
+                return rq
+            toks = []
+            for t in rq[3].split("+"):
+                if t.startswith("after=") and int(t[6:]) > i:
+                    t = "after=%d" % (int(t[6:]) - 1)
+                toks.append(t)
+            return rq[:3] + ["+".join(toks)]
         for i in range(len(regs)):
-            res.append(dict(case, regs=regs[:i] + regs[i + 1:]))
+            res.append(dict(case, regs=regs[:i] + regs[i + 1:], reqs=[shift(rq, i) for rq in reqs]))
         for i, (m, p) in enumerate(regs):
             c = _clean(p)
             if c is not None and "/" + "/".join(c) != p:
@@ -926,7 +989,10 @@ class C09(Property):
                 res.append(dict(case, reqs=reqs[:i] + [[m, "/" + "/".join(c), "path"] + rq[3:]] + reqs[i + 1:]))
         for i, rq in enumerate(reqs):
             if len(rq) > 3 and rq[3]:
-                res.append(dict(case, reqs=reqs[:i] + [rq[:3] + [""]] + reqs[i + 1:]))
+                toks = rq[3].split("+")
+                for j in range(len(toks)):
+                    if not toks[j].startswith("after="):
+                        res.append(dict(case, reqs=reqs[:i] + [rq[:3] + ["+".join(toks[:j] + toks[j + 1:])]] + reqs[i + 1:]))
         if case["nf"] or case["na"]:
             res.append(dict(case, nf=False, na=False))
         return res[:300]
